@@ -117,14 +117,10 @@ def attribute(item: dict, msg: str) -> str | None:
     # a failing nested model makes every model that contains it fail, so attribution looks at the whole document
     if "ForwardRef(" in msg and "doc-self-ref" in f:
         return "F42"
-    if ("format:uuid" in f or "doc-format:uuid" in f) and ("UUID" in msg or "uuid" in msg):
-        return "F10"
-    if ("format:time" in f or "doc-format:time" in f) and "datetime.time" in msg:
-        return "F10"
     if "union" in f or ("doc-union" in f and "Union" in msg):
         return "F24"
-    if ("Cannot structure" in msg or "Could not structure" in msg) and ({"doc-self-ref", "doc-format:uuid", "doc-format:time"} & f):
-        return "F42" if "doc-self-ref" in f else "F10"
+    if ("Cannot structure" in msg or "Could not structure" in msg) and "doc-self-ref" in f:
+        return "F42"
     return None
 
 
@@ -175,7 +171,8 @@ def check(run: Run, ctx) -> None:
     known = findings.Known(run, PROP)
     g.run_corr(run, ctx, "vf.corr.conv", "Conv (structure/unstructure/union/serializer vs the real converter)", quick=0.5, thorough=5.0)
     from .C14 import _Scoped
-    conv_classes = {"leaf-uuid-unsupported": "F10", "leaf-time-unsupported": "F10", "union-firstmatch-lossy": "-", "union-prim-coercion": "-",
+    # (leaf-uuid-unsupported / leaf-time-unsupported - F10, repaired - are not listed: a recurrence is a violation)
+    conv_classes = {"union-firstmatch-lossy": "-", "union-prim-coercion": "-",
                     "error-path-lost-through-optional": "-", "serializer-cycle-recursion": "-", "serializer-dict-leaks-instance": "-", "serializer-registry-dependent": "-"}
     g.run_oracle(run, ctx, _Scoped(known, conv_classes), "vf.corr.conv", "converter laws on the real converter", conv_classes, quick=0.5, thorough=5.0)
     run.cov["rule"] = (run.cov.get("rule") or "") + ("[e2e] seeded random schema sets -> generated models imported in a fresh interpreter -> 3 type-directed conforming instances per object "
